@@ -122,7 +122,7 @@ def main(argv):
     t0 = time.time()
     timeout_ms = 10000 if tier == "quick" else 120000
     jobs = int(os.environ.get("PYVC_JOBS", "16"))
-    opts = {"tier": tier, "prop": pid}
+    opts = {"tier": tier, "prop": pid, "assume_props": cfg.get("assume_props", [])}
     try:
         reports = {}
         with concurrent.futures.ThreadPoolExecutor(max_workers=jobs) as ex:
@@ -202,6 +202,8 @@ def finish(pid, tier, seed, cfg, reports, drift, extra, t0):
         samples += e.get("samples", [])[:3]
     # failed obligations: known finding or violation
     violations, known_hits = [], []
+    import shutil
+    shutil.rmtree(os.path.join(HERE, "replays", pid), ignore_errors=True)   # replay files belong to one run
     os.makedirs(os.path.join(HERE, "replays", pid), exist_ok=True)
     for fid, o in failed:
         kf = next((k for k in known["findings"] if match_finding(k, pid, fid, o)), None)
